@@ -683,7 +683,7 @@ func c05RunColl(ctx *Ctx, c c05Case) {
 func TestC05(t *testing.T) {
 	r := newRec("C05",
 		fmt.Sprintf("value pool of %d single items (every System type, every Date/DateTime/Time precision × {no offset, Z, +05:30, -05:00, +14:00}, 0..3 fraction digits, Integer/Decimal boundary and scale variants, quantities with equal/different/calendar units, FHIR primitive elements of every kind, complex elements); a pair case evaluates = != < <= > >= in both directions (12 evaluations), delivered as literals or variables; triples check transitivity; collection cases (length 1..4, equal / differing at one position / at the last position only / in length, with complex elements) check `=`/`!=`; thorough enumerates all ordered pairs of the pool; non-trivial = both operands of one comparable family (pairs), a<b and b<c both true (triples), equal-length collections of ≥ 2 items; distinct = FNV-64 of the operands and deliveries", len(c05Pool)),
-		"M-CMP is written from the statement: numbers by big.Rat, strings by code point, temporal values component-wise after UTC normalisation down to the shared precision (no offset = UTC; seconds and fractions one precision), quantities within one unit string", "model agreement is asserted only within one family (num, str, bool, Date/DateTime, Time, Quantity); across families only the relational laws, among non-error outcomes")
+		"the near stage also draws one number in two spellings whose scales differ by up to 1700 digits (and a hair apart far down); M-CMP is written from the statement: numbers by big.Rat, strings by code point, temporal values component-wise after UTC normalisation down to the shared precision (no offset = UTC; seconds and fractions one precision), quantities within one unit string", "model agreement is asserted only within one family (num, str, bool, Date/DateTime, Time, Quantity); across families only the relational laws, among non-error outcomes")
 	stages := []stageRunner{}
 	if thorough() {
 		stages = append(stages, Stage[c05Case]{Name: "all-pairs", Enum: c05EnumPairs, Run: c05RunPair})
